@@ -76,6 +76,21 @@ Proof.
   - apply IH. intros j Hj. apply H. now right.
 Qed.
 
+Theorem assignments_domain_perm G rho tys a :
+  (forall nl, In nl tys -> is_perm (rho nl) /\ length (rho nl) = dom G nl) ->
+  In a (all_assts (map (dom G) tys)) ->
+  In (pmap rho tys a) (all_assts (map (dom G) tys))
+  /\ pmap (rho_inv rho) tys (pmap rho tys a) = a
+  /\ pmap rho tys (pmap (rho_inv rho) tys a) = a
+  /\ forall att, (forall i, In i att -> i < length tys) ->
+       sel (pmap rho tys a) att = pmap rho (map (fun i => nth i tys 0) att) (sel a att).
+Proof.
+  intros H Ha. pose proof (all_assts_length _ _ Ha) as Hl. rewrite map_length in Hl.
+  assert (Hp : forall nl, In nl tys -> is_perm (rho nl)) by (intros nl Hin; now apply H).
+  split; [now apply pmap_all_assts|]. split; [now apply pmap_inv|]. split; [now apply pmap_inv_r|].
+  intros att Hatt. now apply sel_pmap.
+Qed.
+
 Lemma wf_rule_types G r : wf_rule G r = true ->
   r_lhs r < length (g_labels G)
   /\ (forall nl, In nl (r_nodes r) -> nl < length (g_doms G))
